@@ -12,7 +12,7 @@ function __call(o, n, args) {
   try { list = __names(Object(o)); } catch (e) { return; }
   if (!list.length) return;
   k = list[n % list.length];
-  if (k === 'constructor' || k === 'wait' || k === 'waitAsync' || k === 'toString' && typeof o === 'function' || k === 'toSource') return;
+  if (k === 'random' || k === 'now' || k === 'getTimezoneOffset' || (typeof k === 'string' && k.indexOf('Locale') >= 0) || k === 'constructor' || k === 'wait' || k === 'waitAsync' || k === 'toString' && typeof o === 'function' || k === 'toSource') return;
   try { f = o[k]; } catch (e) { __log.push('get throws ' + (e && e.name)); return; }
   if (typeof f !== 'function') { __log.push(__t(f)); return f; }
   try { var r = Reflect.apply(f, o, args); __log.push(String(k.description || k) + ':' + __t(r)); return r; } catch (e) { __log.push(String(k.description || k) + ' throws ' + (e && e.name)); }
